@@ -558,7 +558,6 @@ theorem observation_meets_spec (ctx : Ctx) (lim : Limits) (maxLen : Nat) (staged
     exact ⟨⟨trivial, choiceOf_choiceOk _ _ _ nl hl⟩, choiceOf_choiceOk _ _ _ nc hc⟩
   · simp only [historyOk, o, observationOf, decide_eq_true_eq]
 
-
 /-! ### the shuffled-id cache is invisible (state kept across rounds) -/
 
 private theorem step_coherent (shuffle : String → String → String) (src : String) (st : Sorter) (w : String)
@@ -690,80 +689,6 @@ theorem sorter_rounds_canonical (shuffle : String → String → String) :
     | nil => intro st h; exact h
     | cons q qs ih => intro st h; exact ih _ (sorter_refines_canonical shuffle st h q.1 q.2).2
   exact (sorter_refines_canonical shuffle _ (hpre pre s hc) r.1 r.2).1
-
-/-! ### the model's decisions ARE the expressions of the working tree (`Gen.Src`, regenerated on every run) -/
-
-/-- `if limit > len(results) { limit = len(results) }` -/
-theorem clamp_matches_source (cap n : Nat) :
-    min cap n = if Gen.Src.c08ClampToCandidates cap n then n else cap := by
-  simp only [Gen.Src.c08ClampToCandidates, decide_eq_true_eq]
-  split <;> omega
-
-/-- `performablesK` starts the recursion at the clamped limit -/
-theorem performablesK_matches_source (lim : Limits) (maxLen : Nat) (si : SizeInfo) (c : List CheckResult) :
-    performablesK lim maxLen si c =
-      (let l := if Gen.Src.c08ClampToCandidates lim.obsPerformables c.length then c.length else lim.obsPerformables
-       trim maxLen si.base (sizeOf si c) l l) := by
-  simp only [performablesK, clamp_matches_source]
-
-/-- one call of `addByPercentageExceeded`: the three `if` conditions and the step `limit -= avgPerformablesExceeded + 1`
-in source order.  Go's `limit` is an `int`: the second `limit <= 0` test is on the difference (`Int`), the model's is the
-equivalent `limit ≤ n + 1` on naturals.  (`/`, `-` and `math.Ceil` are outside the translator: `avgSize`/`excess` stay tied by
-the extractor's site expectations and by the exact-length correspondence.) -/
-theorem trim_matches_source (maxLen base : Nat) (size : Nat → Nat) (fuel limit : Nat) :
-    trim maxLen base size (fuel + 1) limit =
-      if Gen.Src.c08LimitExhausted (limit : Int) then 0
-      else if Gen.Src.c08TooLong (size limit) maxLen then
-        (if avgSize base size limit = 0 ∨
-            Gen.Src.c08LimitExhausted ((limit : Int) - (Gen.Src.c08TrimBy (excess maxLen base size limit) : Nat)) then limit
-         else trim maxLen base size fuel (limit - Gen.Src.c08TrimBy (excess maxLen base size limit)))
-      else limit := by
-  simp only [trim, gaveUp, Gen.Src.c08LimitExhausted, Gen.Src.c08TooLong, Gen.Src.c08TrimBy, Bool.or_eq_true,
-    decide_eq_true_eq]
-  have e1 : ((limit : Int) ≤ 0) ↔ limit = 0 := by omega
-  have e2 : ((limit : Int) - ((excess maxLen base size limit + 1 : Nat) : Int) ≤ 0) ↔
-      limit ≤ excess maxLen base size limit + 1 := by omega
-  simp only [e1, e2, decide_eq_true_eq]
-
-/-- the order of the candidates: Go sorts with `less(a, b) = shuffled[a] < shuffled[b]`; the model's comparator is the
-corresponding `≤` -/
-theorem canonical_order_matches_source (key : String → String) (a b : CheckResult) :
-    decide (key a.workID ≤ key b.workID) = !Gen.Src.c08SorterLess (key b.workID) (key a.workID) := by
-  simp only [Gen.Src.c08SorterLess]
-  by_cases h : key b.workID < key a.workID
-  · simp [h, String.not_le.mpr h]
-  · simp [h, String.not_lt.mp h]
-
-theorem sorter_less_matches_source (s : Sorter) (a b : CheckResult) :
-    s.less a b = Gen.Src.c08SorterLess ((s.get a.workID).getD "") ((s.get b.workID).getD "") := rfl
-
-/-- the cache is dropped exactly when the source differs from the one it was filled for … -/
-theorem sorter_reset_matches_source (s : Sorter) (src : String) :
-    s.reset src = if Gen.Src.c08SourceChanged (s.lastSrc == src) then { lastSrc := src, cache := [] } else s := rfl
-
-/-- … and an id is shuffled exactly when it is not cached -/
-theorem sorter_step_matches_source (shuffle : String → String → String) (src : String) (st : Sorter) (w : String) :
-    st.step shuffle src w =
-      if Gen.Src.c08IdNotCached (st.get w).isSome then { st with cache := (w, shuffle w src) :: st.cache } else st := rfl
-
-/-- `AddBlockHistoryHook`: `if len(blockHistory) > limit { blockHistory = blockHistory[:limit] }` -/
-theorem history_matches_source (lim : Limits) (hist : List BlockKey) :
-    hist.take lim.obsBlockHistory =
-      if Gen.Src.c08HistoryOverLimit hist.length lim.obsBlockHistory then hist.take lim.obsBlockHistory else hist := by
-  simp only [Gen.Src.c08HistoryOverLimit, decide_eq_true_eq]
-  split
-  · rfl
-  · exact List.take_of_length_le (by omega)
-
-/-- `AddLogProposalsHook` / `AddConditionalProposalsHook`: `if len(proposals) > limit { proposals = proposals[:limit] }`
-on the shuffled list -/
-theorem proposals_choice_matches_source (limit : Nat) (shuffled : List Proposal) :
-    shuffled.take limit =
-        (if Gen.Src.c08LogProposalsOverLimit shuffled.length limit then shuffled.take limit else shuffled) ∧
-      shuffled.take limit =
-        (if Gen.Src.c08CondProposalsOverLimit shuffled.length limit then shuffled.take limit else shuffled) := by
-  simp only [Gen.Src.c08LogProposalsOverLimit, Gen.Src.c08CondProposalsOverLimit, decide_eq_true_eq]
-  constructor <;> (split; rfl; exact List.take_of_length_le (by omega))
 
 /-! ### non-vacuity -/
 
